@@ -977,12 +977,16 @@ class _FunctionInformationCollector(ast.RopeNodeVisitor):
 
     @contextmanager
     def _handle_loop_context(self, node):
-        if node.lineno < self.start:
+        # only loops that enclose the region count; a loop inside the
+        # region must not cancel an enclosing one when it ends
+        encloses = node.lineno < self.start
+        if encloses:
             self.loop_depth += 1
         try:
             yield
         finally:
-            self.loop_depth -= 1
+            if encloses:
+                self.loop_depth -= 1
 
 
 def _get_argnames(arguments):
